@@ -57,4 +57,26 @@ def make_disk_hooks():
         hooks.pop("before_all", None)
     for name in plan.omit_hooks:
         hooks.pop(name, None)
+    style = getattr(plan, "hook_style", None)
+    if style == "partial":
+        import functools
+
+        def trace(hook_func, *args):
+            return hook_func(*args)
+        hooks = dict((name, functools.partial(trace, func)) for name, func in hooks.items())
+    elif style == "method":
+        class Hooks(object):
+            pass
+        holder = Hooks()
+        for name, func in hooks.items():
+            setattr(Hooks, name, (lambda f: lambda self, *args: f(*args))(func))
+        hooks = dict((name, getattr(holder, name)) for name in hooks)
+    elif style == "callable":
+        class Hook(object):
+            def __init__(self, func):
+                self.func = func
+
+            def __call__(self, *args):
+                return self.func(*args)
+        hooks = dict((name, Hook(func)) for name, func in hooks.items())
     return hooks
